@@ -272,6 +272,10 @@ func (wf *WALFileType) readTGData() (tgID int64, tgSerialized []byte, err error)
 	}
 	tgLen := io.ToInt64(tgLenSerialized)
 
+	// a transaction group holds at least its ID: a smaller (or negative) length means the log ends here
+	if tgLen < tgIDBytes {
+		return 0, nil, wal.ShortReadError(io.GetCallerFileContext(0) + fmt.Sprintf(":TG Length too small: %d", tgLen))
+	}
 	if !sanityCheckValue(wf.FilePtr, tgLen) {
 		return 0, nil, errors.New(io.GetCallerFileContext(0) + fmt.Sprintf(": Insane TG Length: %d", tgLen))
 	}
